@@ -84,5 +84,16 @@ def obligations(tier: str) -> list[Ob]:
     for prefix in (["field_"] if q else ["field_", "f", "tag"]):
         obs += spec_obs(M, "pyident_valid", f"pyident_valid[{prefix}]", {"prefix": prefix, "skip": False}, "pyident_valid", list(range(0, (4 if q else 5) + 1)), 4, to, must_upto=4)
         obs += spec_obs(M, "classname_valid", f"classname_valid[{prefix}]", {"prefix": prefix}, "classname_valid", list(range(0, (2 if q else 3) + 1)), 2, to, must_upto=2)
+    from ..e2 import harness_ob
+
+    obs.append(
+        harness_ob(
+            "scope_conflicts", "C09_scopes.py", tier, timeout=240 if q else 900, cpus=6,
+            finding_by_func={"param_conflicts_2": "C09-F5", "attr_conflicts_2": "C09-F6"},
+            encoded=["openapi_python_client.parser.openapi:Endpoint._check_parameters_for_conflicts", "openapi_python_client.parser.properties.model_property:_process_properties", "openapi_python_client.parser.properties.model_property:_resolve_naming_conflict"],
+            stubs=["names come from finite pools (reserved names, their disambiguated spellings, delimiter/case variants, controls) selected by symbolic indices"],
+            bounds={"parameters": "2 (quick) / 3 (thorough) per operation over 3 locations", "attributes": "2-3 per model", "name pool": 12},
+        )
+    )
     obs += spec_obs(M, "pyident_valid", "pyident_raw_valid[field_]", {"prefix": "field_", "skip": True}, "pyident_raw_valid", list(range(0, (3 if q else 5) + 1)), 5, to)
     return obs
